@@ -65,10 +65,10 @@ def class_modules():
              ]),
         dict(file='dicaugment/augmentations/geometric/resize.py', coq_module='Gen_cls_resize',
              requires=GEOM_REQ,
-             classes=[C('RandomScale', methods=['apply_to_dicom', 'apply_to_keypoint']),
+             classes=[C('RandomScale', methods=['apply', 'apply_to_mask', 'apply_to_dicom', 'apply_to_keypoint']),
                       C('LongestMaxSize', methods=['apply_to_dicom', 'apply_to_keypoint']),
                       C('SmallestMaxSize', methods=['apply_to_dicom', 'apply_to_keypoint']),
-                      C('Resize', methods=['apply_to_dicom', 'apply_to_keypoint'],
+                      C('Resize', methods=['apply', 'apply_to_mask', 'apply_to_dicom', 'apply_to_keypoint'],
                         self_attrs={'height': 'Z', 'width': 'Z', 'depth': 'Z'})]),
         dict(file='dicaugment/augmentations/geometric/transforms.py', coq_module='Gen_cls_geom_dicom',
              requires=GEOM_REQ,
@@ -223,6 +223,9 @@ def base_modules():
                                        ('border_mode', 'str'), ('value', 'Q')]),
                  F('pad', [('img', 'arr'), ('min_height', 'Z'), ('min_width', 'Z'), ('min_depth', 'Z'),
                            ('border_mode', 'str'), ('value', 'Q')]),
+                 F('_resize', [('img', 'arr'), ('dsize', 'tuple:Z,Z,Z'), ('interpolation', 'Z')]),
+                 F('resize', [('img', 'arr'), ('height', 'Z'), ('width', 'Z'), ('depth', 'Z'), ('interpolation', 'Z')]),
+                 F('scale', [('img', 'arr'), ('scale', 'Q'), ('interpolation', 'Z')]),
              ]),
         dict(file='dicaugment/augmentations/dropout/functional.py', coq_module='Gen_dropout_functional', requires=[],
              functions=[
